@@ -5,6 +5,7 @@ import (
 	"go/token"
 	"go/types"
 	"math/big"
+	"os"
 	"sort"
 	"strings"
 
@@ -29,7 +30,7 @@ func runC09(p *Program, r *Report) {
 	checkLoopAllocs(p, r)
 	checkLoopProgress(p, r)
 	r.Floor("C09.P1", 7)
-	r.Floor("C09.A1", 5)
+	r.Floor("C09.A1", 3)
 	r.Floor("C09.L1", 12)
 }
 
@@ -176,6 +177,10 @@ func guardFor(op riskyOp) string {
 	switch in := op.In.(type) {
 	case *ssa.IndexAddr:
 		idx := in.Index
+		// G5: constant index below a dominating lower bound on len(s)
+		if c, isC := constInt(idx); isC && c >= 0 && lenAtLeast(in, in.X) > c {
+			return "G5 constant index below a dominating `len(s) >= k` test"
+		}
 		// G2: counter bounded by len of the same slice
 		if phi, ok := idx.(*ssa.Phi); ok {
 			if iv := findIndVar(phi); iv != nil && iv.Op == token.LSS && !iv.PreInc {
@@ -209,6 +214,26 @@ func guardFor(op riskyOp) string {
 			}
 		}
 	case *ssa.Slice:
+		// G5: s[c:], s[:c], s[a:b] with constants within a dominating lower bound on len(s)
+		{
+			lo, hi := int64(0), int64(-1)
+			okC := true
+			if in.Low != nil {
+				lo, okC = constInt(in.Low)
+			}
+			if in.High != nil && okC {
+				hi, okC = constInt(in.High)
+			}
+			if okC && in.Max == nil && lo >= 0 && (hi < 0 || lo <= hi) {
+				need := lo
+				if hi > need {
+					need = hi
+				}
+				if _, isSl := in.X.Type().Underlying().(*types.Slice); isSl && lenAtLeast(in, in.X) >= need {
+					return "G5 constant slice bounds within a dominating `len(s) >= k` test"
+				}
+			}
+		}
 		// G4: data[a : a+c] dominated by uint64(a)+uint64(c) > uint64(len(data)) → exit
 		if in.Low != nil && in.High != nil {
 			if hi, ok := in.High.(*ssa.BinOp); ok && hi.Op == token.ADD && (hi.X == in.Low || hi.Y == in.Low) {
@@ -223,6 +248,74 @@ func guardFor(op riskyOp) string {
 		}
 	}
 	return ""
+}
+
+// lenAtLeast returns the largest constant k such that a condition dominating
+// instruction at establishes len(s) >= k for the same SSA value s (0 if none).
+func lenAtLeast(at ssa.Instruction, s ssa.Value) int64 {
+	best := int64(0)
+	fn := at.Parent()
+	for _, b := range fn.Blocks {
+		ifi, ok := b.Instrs[len(b.Instrs)-1].(*ssa.If)
+		if !ok {
+			continue
+		}
+		cmp, ok := ifi.Cond.(*ssa.BinOp)
+		if !ok {
+			continue
+		}
+		op := cmp.Op
+		x, y := cmp.X, cmp.Y
+		if lenOf(y) == s && lenOf(x) != s {
+			x, y = y, x
+			switch op {
+			case token.LSS:
+				op = token.GTR
+			case token.GTR:
+				op = token.LSS
+			case token.LEQ:
+				op = token.GEQ
+			case token.GEQ:
+				op = token.LEQ
+			}
+		}
+		if lenOf(x) != s {
+			continue
+		}
+		k, isC := constInt(y)
+		if !isC {
+			continue
+		}
+		// which successor implies len(s) >= some bound?
+		var succ *ssa.BasicBlock
+		var bound int64
+		switch op {
+		case token.GEQ: // true: len >= k
+			succ, bound = b.Succs[0], k
+		case token.GTR: // true: len >= k+1
+			succ, bound = b.Succs[0], k+1
+		case token.LSS: // false: len >= k
+			succ, bound = b.Succs[1], k
+		case token.LEQ: // false: len >= k+1
+			succ, bound = b.Succs[1], k+1
+		default:
+			continue
+		}
+		if len(succ.Preds) != 1 {
+			continue
+		}
+		if (succ == at.Block() || succ.Dominates(at.Block())) && bound > best {
+			best = bound
+		}
+	}
+	return best
+}
+
+func wordBitsOf(p *Program) int {
+	if p.Arch == "386" || p.Arch == "arm" {
+		return 32
+	}
+	return 64
 }
 
 // lenOf returns s when v is len(s) (possibly converted), else nil.
@@ -385,14 +478,80 @@ func checkPanicContainment(p *Program, r *Report) {
 	for _, f := range fns {
 		r.SawFn(shortFn(f))
 		site := map[string]int{}
+		// rule B: the function interpreted with bounds tracking (once, on demand)
+		var be *Engine
+		var bouts []Outcome
+		incomplete := ""
+		runB := func() {
+			if be != nil {
+				return
+			}
+			be = NewEngine(p)
+			be.EvalInits = true
+			be.TrackBounds = true
+			be.MaxIter, be.MaxForks = 3, 3
+			st := newState()
+			s := &Stream{Name: "in"}
+			st.pos[s] = formInt(0)
+			bouts = be.Run(f, setupArgs(be, st, f, s), st)
+			for _, o := range bouts {
+				if o.Kind == "stuck" || o.Kind == "cutoff" {
+					incomplete = o.Kind + " at " + p.Pos(o.Pos) + ": " + o.Why
+				}
+			}
+		}
 		for _, op := range riskyOps(f) {
 			nOps++
 			site[op.What]++
 			key := fmt.Sprintf("%s %s#%d", shortFn(f), op.What, site[op.What])
-			if g := guardFor(op); g != "" {
+			g := guardFor(op)
+			ruleBWhy := ""
+			if os.Getenv("PRISMCHECK_RULEB_ONLY") != "" {
+				g = "" // developer aid: show what rule B proves on its own
+			}
+			if g == "" && (op.What == "slice expression" || op.What == "slice index") {
+				// rule B: bounds implied by the path conditions
+				var bounds []ssa.Value
+				switch in := op.In.(type) {
+				case *ssa.Slice:
+					bounds = []ssa.Value{in.Low, in.High}
+				case *ssa.IndexAddr:
+					bounds = []ssa.Value{in.Index}
+				}
+				arith := true
+				for _, b := range bounds {
+					if b != nil && !boundArithOK(b, wordBitsOf(p), 0) {
+						arith = false
+					}
+				}
+				if arith {
+					runB()
+					if incomplete == "" {
+						n, ok, how, whyNot := boundsProof(be, bouts, op.In)
+						if ok && n > 0 {
+							g = fmt.Sprintf("B the bounds are implied by the conditions on every path reaching it (%d path contexts; e.g. %s)", n, how)
+							r.Assume("slices handed to the ICC tag parsers are shorter than 2^32 bytes (cut from tag data sized by 32-bit fields)")
+						} else if n == 0 {
+							ruleBWhy = "the abstract interpretation of " + shortFn(f) + " does not reach it"
+						} else {
+							ruleBWhy = whyNot
+						}
+					} else {
+						ruleBWhy = "the abstract interpretation of " + shortFn(f) + " is incomplete (" + incomplete + ")"
+					}
+				} else {
+					ruleBWhy = "the bound is computed with arithmetic narrower than 32 bits or a narrowing conversion"
+				}
+			}
+			if g != "" {
 				r.Hold("C09.P1", key, p.InstrPos(op.In), "guarded: "+g)
 			} else {
-				r.Violate("C09.P1", key, p.InstrPos(op.In), fmt.Sprintf("%s in %s runs outside any recover() (reached from %s) and is not protected by a recognised sound bounds check: hostile lengths/offsets can make it panic in the caller's goroutine", op.What, shortFn(f), unprot[f]))
+				r.Violate("C09.P1", key, p.InstrPos(op.In), fmt.Sprintf("%s in %s runs outside any recover() (reached from %s) and is not protected by a recognised sound bounds check: hostile lengths/offsets can make it panic in the caller's goroutine%s", op.What, shortFn(f), unprot[f], func() string {
+					if ruleBWhy != "" {
+						return " [" + ruleBWhy + "]"
+					}
+					return ""
+				}()))
 			}
 		}
 	}
@@ -1016,6 +1175,36 @@ func checkLoopProgress(p *Program, r *Report) {
 					}
 				}
 			}
+			// (a') a slice consumed from the front: s = [s0, s[c:]] with c > 0,
+			// the loop continuing only while len(s) >= c' > 0: each iteration
+			// shortens held data, so the trip count is bounded by its length
+			if ifi, ok := h.Instrs[len(h.Instrs)-1].(*ssa.If); ok && bounded == "" {
+				for _, in := range h.Instrs {
+					phi, ok := in.(*ssa.Phi)
+					if !ok {
+						break
+					}
+					if _, isSl := phi.Type().Underlying().(*types.Slice); !isSl || len(phi.Edges) != 2 {
+						continue
+					}
+					shrinks := false
+					for _, ed := range phi.Edges {
+						if sl, ok := ed.(*ssa.Slice); ok && sl.X == ssa.Value(phi) && sl.High == nil && sl.Low != nil {
+							if c, isC := constInt(sl.Low); isC && c > 0 {
+								shrinks = true
+							}
+						}
+					}
+					if !shrinks {
+						continue
+					}
+					if cmp, ok := ifi.Cond.(*ssa.BinOp); ok && lenOf(cmp.X) == ssa.Value(phi) && body[h.Succs[0]] {
+						if k, isC := constInt(cmp.Y); isC && ((cmp.Op == token.GEQ && k > 0) || (cmp.Op == token.GTR && k >= 0)) {
+							bounded = "a slice of held data consumed from the front (s = s[c:], c > 0, while len(s) >= k > 0)"
+						}
+					}
+				}
+			}
 			if bounded != "" {
 				r.Hold("C09.L1", key, pos, bounded)
 				continue
@@ -1082,6 +1271,19 @@ func checkLoopProgress(p *Program, r *Report) {
 					name = cf.Name()
 				}
 				n++
+				if name == "Seek" && len(c.Common().Args) >= 2 {
+					// accepted idiom: Seek(off, io.SeekCurrent) with an offset converted from an
+					// unsigned value moves forward only (reads past the end return EOF)
+					args := c.Common().Args
+					off, whence := args[len(args)-2], args[len(args)-1]
+					if w, isC := constInt(whence); isC && w == 1 {
+						if cv, ok := off.(*ssa.Convert); ok && nonnegSource(cv.X, 0) {
+							if sw, _, sInt := intTypeInfo(cv.X.Type(), 64); sInt && sw < 64 {
+								continue
+							}
+						}
+					}
+				}
 				switch name {
 				case "Seek", "UnreadByte", "UnreadRune", "Reset", "Discard", "Peek", "Truncate":
 					bad = fmt.Sprintf("%s calls %s at %s: repositioning a reader lets input-declared values move it backwards so that the same bytes are parsed again without ever reaching EOF", shortFn(f), name, p.InstrPos(in))
